@@ -36,6 +36,11 @@ type Case struct {
 	Refresh bool `json:"refresh,omitempty"`
 	// Distinct: every entry carries an invalidityDate entry extension with its own value (no two entries alike)
 	Distinct bool `json:"distinct_exts,omitempty"`
+	// DebugLog: the code under test runs with a logger on which DEBUG is enabled (output discarded)
+	DebugLog bool `json:"debug_log,omitempty"`
+	// Late: the source is not there at the first attempt (file: appears 300 ms later under the configured name;
+	// http: the connection of the first request is reset before any response), so the list is taken in by the loader's retry path
+	Late bool `json:"late,omitempty"`
 	// FailAfter (path store-fault): the LevelDB database starts rejecting writes after this many entries
 	FailAfter int `json:"fail_after,omitempty"`
 }
@@ -194,15 +199,33 @@ func measure(c Case, n int, dir string, salt int) (int64, int64, error) {
 	// whole path: (download ->) parse -> store -> lookups
 	o := world.NewOrigin()
 	defer o.Close()
-	o.Set("/big.crl", func(w http.ResponseWriter, r *http.Request, _ []byte, _ int) { http.ServeFile(w, r, listPath) })
+	o.Set("/big.crl", func(w http.ResponseWriter, r *http.Request, _ []byte, n int) {
+		if c.Late && n == 1 {
+			// the connection is reset before a response: a transport error, which the loader retries
+			if hj, ok := w.(http.Hijacker); ok {
+				conn, _, _ := hj.Hijack()
+				conn.Close()
+			}
+			return
+		}
+		http.ServeFile(w, r, listPath)
+	})
 	wd := filepath.Join(dir, fmt.Sprintf("work-%d", n))
 	os.MkdirAll(wd, 0o755)
 	defer os.RemoveAll(wd)
-	opts := world.CRLOpts{WorkDir: wd, Disk: c.Path == "whole-disk", Trusted: []*x509.Certificate{ca.Cert}, NoSettle: true, Interval: time.Hour, Watchdog: 20 * time.Minute}
+	opts := world.CRLOpts{WorkDir: wd, Disk: c.Path == "whole-disk", Trusted: []*x509.Certificate{ca.Cert}, NoSettle: true, Interval: time.Hour, Watchdog: 20 * time.Minute, DebugLog: c.DebugLog}
 	if c.Via == "http" {
 		opts.URLs = []string{o.URL("/big.crl")}
 	} else {
 		opts.Files = []string{listPath}
+		if c.Late {
+			pending := listPath + ".pending"
+			os.Rename(listPath, pending)
+			go func() {
+				time.Sleep(300 * time.Millisecond)
+				os.Rename(pending, listPath)
+			}()
+		}
 	}
 	stop := make(chan struct{})
 	done := make(chan struct{})
@@ -302,7 +325,7 @@ func runCase(c Case, x *ev.Ctx) error {
 var spec = ev.Spec[Case]{
 	ID:          "C17",
 	Run:         runCase,
-	Rule:        "metamorphic in N: well-formed lists of N1 and N2 >> N1 entries (20-byte serials, reasonCode entry extensions) are written by the streaming encoder to a file (never held in memory by the harness) and processed (a) by the streaming reader with a counting consumer and (b) through the whole path provision -> (HTTP download | file copy) -> parse -> LevelDB -> (one case: + a refresh of the same list) -> lookups of first/middle/last entry; some lists carry a certificateIssuer entry extension on every entry, some an invalidityDate extension with a different value on every entry; one pair feeds the reader into a LevelDB store whose database turns read-only after 1000 entries (path store-fault, judged like the reader path); live heap (HeapAlloc right after a forced GC) is sampled every 5000 entries from inside the consumer and every 40 ms by a sampler during the whole path. Oracle: peak(N2) - peak(N1) <= 4 MiB (reader) / 16 MiB (whole path on disk; N1 is chosen large enough (>= 3*10^5 entries, 18 MB) that LevelDB's write buffers and caches are already saturated) and absolute ceilings 32 / 160 MiB; after the N2 measurement and after everything was closed (Cleanup / store closed and deleted) at most 8 MiB of live heap above the baseline remain; a pair above a limit is measured up to three times and the smallest growth counts (growth with N is reproducible, a transient of a busy machine is not; every measurement uses serials and extension values no earlier measurement of the process has used); the memory back-end is measured and reported only (documented O(N)). Every size pair is non-trivial.",
+	Rule:        "metamorphic in N: well-formed lists of N1 and N2 >> N1 entries (20-byte serials, reasonCode entry extensions) are written by the streaming encoder to a file (never held in memory by the harness) and processed (a) by the streaming reader with a counting consumer and (b) through the whole path provision -> (HTTP download | file copy) -> parse -> LevelDB -> (one case: + a refresh of the same list) -> lookups of first/middle/last entry; some lists carry a certificateIssuer entry extension on every entry, some an invalidityDate extension with a different value on every entry; some pairs run with DEBUG logging enabled (output discarded) and / or take the list in through the loader's retry path (file not there at the first attempt, first HTTP connection reset); one pair feeds the reader into a LevelDB store whose database turns read-only after 1000 entries (path store-fault, judged like the reader path); live heap (HeapAlloc right after a forced GC) is sampled every 5000 entries from inside the consumer and every 40 ms by a sampler during the whole path. Oracle: peak(N2) - peak(N1) <= 4 MiB (reader) / 16 MiB (whole path on disk; N1 is chosen large enough (>= 3*10^5 entries, 18 MB) that LevelDB's write buffers and caches are already saturated) and absolute ceilings 32 / 160 MiB; after the N2 measurement and after everything was closed (Cleanup / store closed and deleted) at most 8 MiB of live heap above the baseline remain; a pair above a limit is measured up to three times and the smallest growth counts (growth with N is reproducible, a transient of a busy machine is not; every measurement uses serials and extension values no earlier measurement of the process has used); the memory back-end is measured and reported only (documented O(N)). Every size pair is non-trivial.",
 	Assumptions: []string{"HeapAlloc after runtime.GC() approximates live heap; the harness keeps no per-entry data"},
 }
 
@@ -317,6 +340,9 @@ func cases() []Case {
 		{Path: "whole-memory", N1: 20000, N2: 100000, Via: "http", Exts: true},
 		{Path: "whole-disk", N1: 100000, N2: 400000, Via: "file", Exts: true, Distinct: true},
 		{Path: "store-fault", N1: 20000, N2: 200000, Exts: true, FailAfter: 1000},
+		{Path: "whole-disk", N1: 100000, N2: 400000, Via: "http", Exts: true, DebugLog: true},
+		{Path: "whole-disk", N1: 200000, N2: 900000, Via: "file", Exts: true, Late: true},
+		{Path: "whole-disk", N1: 100000, N2: 400000, Via: "http", PEM: true, Late: true, DebugLog: true},
 	}
 	if !ev.Thorough() {
 		return quick
